@@ -279,6 +279,14 @@ def check_heap(rep, repo: Repo, pre: str = "") -> None:
         t = rets[0].value
         if name == "dad" and t[0] == "sel" and t[1] in (("cmp", "<", ("const", 0), prm), ("cmp", "<=", ("const", 1), prm)):
             t = t[2]  # the same as a conditional expression
+
+            def unabs(x):  # abs(i - 1) is i - 1 where i >= 1
+                if not isinstance(x, tuple) or not x:
+                    return x
+                if x[0] == "call" and x[1] == ("builtin", "abs") and len(x[2]) == 1 and lin_eq(lin(x[2][0]), {prm: 1, 1: -1}):
+                    return x[2][0]
+                return tuple(unabs(y) if isinstance(y, tuple) else y for y in x)
+            t = unabs(t)
         if name == "dad":
             inner = strip_int(t)
             # the truncating quotient spelt in integers: `n // 2 if n >= 0 else -(-n // 2)` is int(n / 2); for the positions the
@@ -889,6 +897,9 @@ def check_heap(rep, repo: Repo, pre: str = "") -> None:
         # (`if pos > 0: go_up(pos)` is go_up(pos): the sift loop runs while the position is > 0)
         extra = [f for f in extra if f not in (("cmp", "<", ("const", 0), e.args[0]), ("cmp", "<=", ("const", 1), e.args[0]),
                                                 ("cmp", "!=", *sorted([("const", 0), e.args[0]], key=repr)))]
+        # (`if pos >= 0: go_up(pos)`: a removed element has position -1 and go_up(-1) does nothing - its loop needs i > 0)
+        from .ir import not_nil_forms as _nnf
+        extra = [f for f in extra if f not in _nnf(e.args[0])]
         rep.ev(pre + "H5-update-sift-guard", e, not extra,
                "" if not extra else f"the sift-up of a queued element is conditional on '{show(extra[0])[:80]}': whether an improved "
                "key moves towards the root may depend only on the element's colour (a direction chosen by comparing costs must "
